@@ -9,7 +9,7 @@ From Coq Require Import NArith List Bool Lia.
 Import ListNotations.
 From Verif.model Require Import AgreementTypes AgreementVotes AgreementProposals AgreementPlayer
      Durable DurableFine C02Check.
-From Verif.proofs Require Import AgreementLemmas AgreementC03Proofs AgreementAttestOnce DurableProofs DurableFineProofs.
+From Verif.proofs Require Import AgreementLemmas AgreementC03Proofs AgreementAttestOnce AgreementStaging DurableProofs DurableFineProofs.
 Open Scope N_scope.
 
 Definition gstep (pm : params) (own : list N) (ms : mstate) (e : ext_event) : mstate * list cvote :=
@@ -104,4 +104,120 @@ Proof.
   eapply (fine_crash_nonequiv mstate ext_event cvote (Some (init pm r0)) (gstep pm own) restore eqv R T S Re
             cv_conflict_tracked); [|exact H1|exact H2].
   apply gstep_attest_once. exact Hpp.
+Qed.
+
+(* ---------- all step kinds ---------- *)
+(* The guard additionally checks the step bound (no next vote at steps 253..255) and value-consistency
+   of the thresholds backed by the votes delivered so far, through ANY sound decidable checker
+   [cons_b] (e.g. "all delivered votes carry one value": [single_value_b]). *)
+Definition g3state : Type := option (state * list vote).
+
+Definition gstep3 (pm : params) (own : list N) (cons_b : list vote -> bool) (ms : g3state) (e : ext_event)
+  : g3state * list cvote :=
+  match ms with
+  | None => (None, [])
+  | Some (st, D) =>
+      let D' := D ++ ev_delivered e in
+      if ev_ok3_b st e && cons_b D' then
+        match step pm st e with
+        | Ok (st', acts) => (Some (st', D'), attest_votes own acts)
+        | _ => (None, [])
+        end
+      else (None, [])
+  end.
+
+Fixpoint gaccept3 (pm : params) (cons_b : list vote -> bool) (st : state) (D : list vote) (evs : list ext_event)
+  : list ext_event :=
+  match evs with
+  | [] => []
+  | e :: t =>
+      let D' := D ++ ev_delivered e in
+      if ev_ok3_b st e && cons_b D' then
+        match step pm st e with
+        | Ok (st', _) => e :: gaccept3 pm cons_b st' D' t
+        | _ => []
+        end
+      else []
+  end.
+
+Lemma gaccept3_ok pm cons_b : forall evs st D, trace_ok3_b pm st (gaccept3 pm cons_b st D evs) = true.
+Proof.
+  induction evs as [|e t IH]; intros st D; cbn [gaccept3]; [reflexivity|].
+  destruct (ev_ok3_b st e) eqn:E; [|reflexivity]. destruct (cons_b (D ++ ev_delivered e)); [|reflexivity]. cbn [andb].
+  destruct (step pm st e) as [[st' acts]| |] eqn:ES; try reflexivity.
+  cbn [trace_ok3_b]. rewrite E, ES. cbn. apply IH.
+Qed.
+
+Lemma gaccept3_cons pm cons_b : forall evs st D,
+  gaccept3 pm cons_b st D evs <> [] -> cons_b (D ++ delivered (gaccept3 pm cons_b st D evs)) = true.
+Proof.
+  induction evs as [|e t IH]; intros st D NE; cbn [gaccept3] in *; [contradiction|].
+  destruct (ev_ok3_b st e); [|contradiction]. destruct (cons_b (D ++ ev_delivered e)) eqn:EC; [|contradiction].
+  cbn [andb] in *. destruct (step pm st e) as [[st' acts]| |]; try contradiction.
+  unfold delivered. cbn [flat_map]. rewrite app_assoc.
+  destruct (gaccept3 pm cons_b st' (D ++ ev_delivered e) t) as [|e' t'] eqn:EG.
+  - cbn. rewrite app_nil_r. exact EC.
+  - rewrite <- EG. apply (IH st' (D ++ ev_delivered e)). rewrite EG. discriminate.
+Qed.
+
+Lemma run_votes_dead3 pm own cons_b evs :
+  Durable.run_votes g3state ext_event cvote (gstep3 pm own cons_b) None evs = [].
+Proof. induction evs as [|e t IH]; cbn; [reflexivity|exact IH]. Qed.
+
+Lemma run_votes_gstep3 pm own cons_b : forall evs st D,
+  Durable.run_votes g3state ext_event cvote (gstep3 pm own cons_b) (Some (st, D)) evs
+  = attest_votes own (all_acts pm st (gaccept3 pm cons_b st D evs)).
+Proof.
+  induction evs as [|e t IH]; intros st D; cbn [Durable.run_votes gaccept3]; [reflexivity|].
+  cbn [gstep3]. destruct (ev_ok3_b st e && cons_b (D ++ ev_delivered e)) eqn:E; [|cbn; apply run_votes_dead3].
+  destruct (step pm st e) as [[st' acts]| |] eqn:ES; cbn [fst snd];
+    try (cbn; apply run_votes_dead3).
+  rewrite (all_acts_cons pm st e _ st' acts ES), attest_votes_app, IH. reflexivity.
+Qed.
+
+Definition cv_conflict_any (a b : cvote) : Prop :=
+  cv_snd a = cv_snd b /\ cv_rnd a = cv_rnd b /\ cv_per a = cv_per b /\ cv_step a = cv_step b /\ cv_val a <> cv_val b.
+
+Lemma gstep3_attest_once pm own cons_b r0 :
+  params_pos pm -> 0 < r0 -> (forall D, cons_b D = true -> cons_sc pm D /\ cons_next pm D) ->
+  forall evs v1 v2,
+    In v1 (Durable.run_votes g3state ext_event cvote (gstep3 pm own cons_b) (Some (init pm r0, [])) evs) ->
+    In v2 (Durable.run_votes g3state ext_event cvote (gstep3 pm own cons_b) (Some (init pm r0, [])) evs) ->
+    ~ cv_conflict_any v1 v2.
+Proof.
+  intros Hpp R0 CB evs v1 v2 H1 H2 (_ & ER & EP & ES & NE).
+  rewrite run_votes_gstep3 in H1, H2. apply in_attest_votes in H1. apply in_attest_votes in H2.
+  rewrite <- ER, <- EP, <- ES in H2.
+  set (es := gaccept3 pm cons_b (init pm r0) [] evs) in *.
+  assert (NN : es <> []).
+  { intros E. rewrite E in H1. cbn in H1. exact H1. }
+  destruct (CB _ (gaccept3_cons pm cons_b evs (init pm r0) [] NN)) as [CS CN]. cbn [app] in CS, CN. fold es in CS, CN.
+  apply NE. eapply (attest_once_all_proof pm r0 es Hpp R0); [|exact CS|exact CN|exact H1|exact H2].
+  apply trace_ok3_b_sound. apply gaccept3_ok.
+Qed.
+
+Theorem model_nonequiv_all pm own cons_b r0 (restore : g3state -> g3state) (eqv : g3state -> g3state -> Prop) :
+  params_pos pm -> 0 < r0 -> (forall D, cons_b D = true -> cons_sc pm D /\ cons_next pm D) ->
+  (forall s, eqv s s) -> (forall a b c, eqv a b -> eqv b c -> eqv a c) ->
+  (forall s s' e, eqv s s' -> snd (gstep3 pm own cons_b s e) = snd (gstep3 pm own cons_b s' e) /\
+                              eqv (fst (gstep3 pm own cons_b s e)) (fst (gstep3 pm own cons_b s' e))) ->
+  (forall s, eqv (restore s) s) ->
+  forall ops v1 v2,
+    In v1 (f_released g3state ext_event cvote (frun g3state ext_event cvote (Some (init pm r0, [])) (gstep3 pm own cons_b) restore ops)) ->
+    In v2 (f_released g3state ext_event cvote (frun g3state ext_event cvote (Some (init pm r0, [])) (gstep3 pm own cons_b) restore ops)) ->
+    ~ cv_conflict_any v1 v2.
+Proof.
+  intros Hpp R0 CB R T S Re ops v1 v2 H1 H2.
+  eapply (fine_crash_nonequiv g3state ext_event cvote (Some (init pm r0, [])) (gstep3 pm own cons_b) restore eqv R T S Re
+            cv_conflict_any); [|exact H1|exact H2].
+  apply gstep3_attest_once; assumption.
+Qed.
+
+(* a sound checker exists: all delivered votes carry one value *)
+Definition single_value_b (v0 : value) (D : list vote) : bool := forallb (fun x => value_eqb (vt_val x) v0) D.
+Lemma single_value_b_sound pm v0 : params_pos pm ->
+  forall D, single_value_b v0 D = true -> cons_sc pm D /\ cons_next pm D.
+Proof.
+  intros Hpp D H. apply (cons_single_value pm D v0 Hpp). intros x Hx.
+  unfold single_value_b in H. rewrite forallb_forall in H. apply value_eqb_eq. apply H. exact Hx.
 Qed.
